@@ -203,6 +203,33 @@ def scripts_to_ops(scripts, reset, prologue):
     return rows
 
 
+def funding_scenarios(patterns, limit):
+    """open payers (long side, larger) and receivers (short side), let funding accrue over one period,
+    then settle everybody -- receivers first or payers first; sizes come from MC_FundingBack's patterns"""
+    seen, pats = set(), []
+    for p in patterns:
+        k = (p["s1"], p["s2"], p["r1"], p["r2"], p["dt"])
+        if k not in seen:
+            seen.add(k)
+            pats.append(p)
+    step = max(1, len(pats) // limit)
+    rows = []
+    for n, p in enumerate(pats[::step]):
+        cl = n % 2 == 0                       # payers' collateral token
+        pay = [(1 if cl else 2, 300 + 3 * p["s1"])] + ([(5 if cl else 6, 200 + 2 * p["s2"])] if p["s2"] else [])
+        rcv = ([(3, 20 + p["r1"])] if p["r1"] else []) + ([(8, 20 + p["r2"])] if p["r2"] else [])
+        rows += [dict(RESET, fp=(0 if n % 3 else 7)), {"op": "init"}, {"op": "deposit", "l": 400, "s": 4000}]
+        for slot, size in pay + rcv:
+            coll_long = slot % 2 == 1
+            usd = size if (slot, size) in pay else size // 2      # payers fully collateralised: they can pay
+            rows.append({"op": "increase", "pos": slot, "size": size, "coll": (usd // 10 + 1) if coll_long else usd + 1})
+        rows += [{"op": "update_funding"}, {"op": "tick", "dt": p["dt"]}, {"op": "update_funding"}]
+        order = (rcv + pay) if n % 4 < 2 else (pay + rcv)
+        for slot, _ in order:
+            rows.append({"op": "decrease", "pos": slot, "size": 100000, "cap": True, "wd": 0})
+    return rows
+
+
 def judge(ctx, pid, batch, stats):
     """validate one batch; report this property's monitor failures; collect statistics"""
     fails, drifts, _ = ctx.validate_trace(TRACE, batch.trace, cfg=batch.cfg)
@@ -344,8 +371,11 @@ def run(ctx, pid):
             rs = dict(RESET, fe=fe, ip=ip, bp=1, fp=0)
             batches.append(replay_batch(ctx, "oibook_f%d%d" % (fe, ip), scripts_to_ops(scripts[:: (3 if q else 1)], rs, prologue)))
     elif pid == "C08":
-        ctx.model_check("MC_FundingBack", cfg="MC_FundingBack" if q else "MC_FundingBack_thorough", workers=8,
-                        timeout=1500, coverage=False)
+        r = ctx.model_check("MC_FundingBack", cfg="MC_FundingBack" if q else "MC_FundingBack_thorough", workers=8,
+                            timeout=1500, coverage=False)
+        pats = r.tagged("T")
+        need(len(pats) > 100, "MC_FundingBack printed only %d patterns" % len(pats))
+        batches.append(replay_batch(ctx, "funding_scenarios", funding_scenarios(pats, 250 if q else 2500)))
     elif pid == "C12":
         r = ctx.model_check("MC_Funding", cfg="MC_Funding" if q else "MC_Funding_thorough", workers=8,
                             timeout=1500, coverage=False)
@@ -368,7 +398,7 @@ def run(ctx, pid):
     # ---- 2. random histories of the real code (all four properties are judged on histories)
     seed = int(ctx.seed)
     if q:
-        batches.append(random_batch(ctx, "hist_d1", 1, 3000, 60, seed))
+        batches.append(random_batch(ctx, "hist_d1", 1, 5000, 100, seed))
     else:
         for k in range(4):
             batches.append(random_batch(ctx, "hist_d1_%d" % k, 1, 12000, 240, seed + k))
